@@ -449,6 +449,33 @@ fn fam_core(o: &mut Out, quick: bool, rng: &mut Rng) {
             o.run(c);
         }
     }
+    // RK4 through solve_ivp: max_step bounds the fixed step (the default hundredth of the interval as well as a given
+    // first_step), and first_step means the same with either sign, as for the adaptive methods
+    for (x0, xend) in [(0.0, 5.0), (1.0, -4.0)] {
+        for ms in [0.02, 0.0371] {
+            let mut c = base("RK4", Problem::new("sho", 0.0), x0, xend);
+            c.max_step = Some(ms);
+            c.tags = vec!["rk4+max_step_below_default_step".into()];
+            o.run(c);
+        }
+        let mut c = base("RK4", Problem::new("sho", 0.0), x0, xend);
+        c.max_step = Some(0.3);
+        c.tags = vec!["rk4+max_step_above_default_step".into()];
+        o.run(c);
+        let h = (xend - x0) / 16.0;
+        let mut a = base("RK4", Problem::new("sho", 0.0), x0, xend);
+        a.first_step = Some(h);
+        a.max_step = Some(1.0);
+        a.tags = vec!["rk4+first_step_signed".into()];
+        let ra = o.run(a.clone());
+        for hs in [h.abs(), -h.abs()] {
+            let mut b = a.clone();
+            b.first_step = Some(hs);
+            b.tags = vec!["rk4+first_step_other_sign".into()];
+            let rb = o.run(b);
+            o.pair("C11", "equal", &ra, &rb, "the sign of first_step does not matter (RK4 as the adaptive methods)");
+        }
+    }
     // infinite xend with a terminal event
     for m in ADAPTIVE {
         let mut c = base(m, Problem::new("const1", 0.0), 0.0, f64::INFINITY);
@@ -1913,6 +1940,39 @@ fn fam_teval_landing(o: &mut Out) {
     }
 }
 
+/// C05: steps far shorter than 1e-12 abs(x0) at an offset of 1e6 (fast decay, rtol 1e-8; RK4: 5e-7): the handler's slack is
+/// absolute, such steps are ordinary steps and requested times inside them carry the interpolant's value
+fn fam_teval_offset_short(o: &mut Out) {
+    for m in METHODS {
+        for (x0, len) in [(1.0e6, 1.0e-4), (-1.0e6, -1.0e-4)] {
+            let xend: f64 = x0 + len;
+            let mut c = base(m, Problem::new("decay", 2.0e5), x0, xend);
+            c.rtol = vec![1e-8];
+            c.atol = vec![1e-12];
+            c.jac = "user".into();
+            c.dense = true;
+            if m == "RK4" { c.first_step = Some(len / 200.0); }
+            c.t_eval = Some((0..=40).map(|i| if i == 40 { xend } else { x0 + len * (i as f64) / 40.0 }).collect());
+            c.tags = vec!["offset+short_steps".into()];
+            o.run(c);
+        }
+    }
+}
+
+/// C05 / C03: an interval that starts at a large offset and ends near the origin: the landing step h = xend - x is
+/// rounded at the magnitude of x, so x + h misses xend by up to half an ulp of x (1e-10 at 1e6), more than the handler's
+/// absolute 1e-12: the requested xend is not reported although the run is a Success (recorded finding `landing_cancellation`)
+fn fam_teval_cancellation(o: &mut Out) {
+    for m in METHODS {
+        for (x0, xend) in [(-1000000.7, 0.1), (1000000.7, -0.1)] {
+            let mut c = base(m, Problem::new("const1", 0.0), x0, xend);
+            c.t_eval = Some(vec![x0, xend]);
+            c.tags = vec!["landing_cancellation".into()];
+            o.run(c);
+        }
+    }
+}
+
 /// C05: the degenerate interval with the requested time repeated
 /// C06: requested times that miss the span by a few 1e-10 at an offset of 1000 or 1e5 (a grid accumulated by repeated
 /// addition): whatever is reported is covered by sol
@@ -2038,19 +2098,38 @@ fn fam_events(o: &mut Out, quick: bool, rng: &mut Rng) {
 
 /// C08: event functions of small magnitude (state of size 2^-20): located to the root finder's accuracy in t
 fn fam_events_small(o: &mut Out) {
-    let f = (2.0f64).powi(-20);
+  // event functions of small magnitude: above and below the root finder's abscissa tolerance 2e-12 (the value of g is not a time)
+  for (f, at) in [((2.0f64).powi(-20), 1e-16), ((2.0f64).powi(-42), 1e-22), ((2.0f64).powi(-70), 1e-30)] {
     for m in METHODS {
         for (x0, xend, a) in [(0.0, 2.0, 0.5), (1.0, -1.0, 3.0)] {
             let mut c = base(m, Problem::new("decay", 1.0), x0, xend);
             c.y0 = vec![f];
             c.rtol = vec![1e-8];
-            c.atol = vec![1e-16];
+            c.atol = vec![at];
             c.dense = true;
             if m == "RK4" { c.first_step = Some((xend - x0) / 60.0); }
             c.events = vec![EventSpec { kind: "y0-a".into(), a: a * f, dir: "All".into(), term: 0 },
                             EventSpec { kind: "y0-a".into(), a: a * f * 1.25, dir: if xend > x0 { "Neg".into() } else { "Pos".into() }, term: 0 }];
             c.tags = vec!["events_small_scale".into()];
             o.run(c);
+        }
+    }
+  }
+    // a time event scaled down to 1e-12 .. 1e-30: located at its root whatever the scale
+    for m in METHODS {
+        for (x0, xend) in [(0.0, 2.0), (1.0, -1.0)] {
+            for sc in ["1e-12", "-3e-13", "1e-30"] {
+                let mut c = base(m, Problem::new("sho", 0.0), x0, xend);
+                c.dense = true;
+                if m == "RK4" { c.first_step = Some((xend - x0) / 7.0); }
+                let root = x0 + (xend - x0) * 0.6180339887;
+                c.events = vec![EventSpec { kind: format!("st-c:{}", sc), a: root, dir: "All".into(), term: 0 }];
+                c.tags = vec!["events_small_scale+time".into()];
+                let r = o.run(c.clone());
+                let ok = r.sol.as_ref().map_or(true, |s| s.t_events.len() == 1 && s.t_events[0].len() == 1 && (s.t_events[0][0] - root).abs() <= 1e-9);
+                o.pair_f("C09", "grid_values", &r, &r, "fact: a scaled time event s (t - c) is reported once, at c (1e-9)", ok);
+                o.pair_f("C08", "grid_values", &r, &r, "fact: a scaled time event s (t - c) is reported once, at c (1e-9)", ok);
+            }
         }
     }
 }
@@ -2182,7 +2261,7 @@ fn main() {
             "terminal" => { fam_terminal(&mut o, quick, &mut rng); fam_terminal_last(&mut o, quick); fam_terminal_sweep(&mut o, quick); fam_terminal_budget(&mut o); fam_terminal_tinysteps(&mut o); fam_terminal_unbounded(&mut o); }
             "symmetry" => fam_symmetry(&mut o, quick, &mut rng),
             "storage" => { fam_storage(&mut o, quick, &mut rng); fam_storage_mass(&mut o, quick); fam_storage_jacsource(&mut o); }
-            "teval" => { fam_teval(&mut o, quick, &mut rng); fam_teval_zero(&mut o); fam_teval_landing(&mut o); fam_teval_offset(&mut o); fam_teval_single(&mut o); fam_teval_minstep(&mut o); fam_terminal_unbounded(&mut o); }
+            "teval" => { fam_teval(&mut o, quick, &mut rng); fam_teval_zero(&mut o); fam_teval_landing(&mut o); fam_teval_offset(&mut o); fam_teval_cancellation(&mut o); fam_teval_offset_short(&mut o); fam_teval_single(&mut o); fam_teval_minstep(&mut o); fam_terminal_unbounded(&mut o); }
             "events" => { fam_events(&mut o, quick, &mut rng); fam_events_small(&mut o); fam_events_codes(&mut o); fam_events_tiny(&mut o); fam_events_zero(&mut o); fam_events_tinysteps(&mut o); fam_events_counted(&mut o); }
             _ => { eprintln!("unknown family {}", fam); std::process::exit(2); }
         }
